@@ -90,6 +90,12 @@ def corpus():
     return out
 
 
+def classify_hmm_zero_variance(case, impl, resp):
+    """finding U: pomegranate refuses a NormalDistribution with stdev 0 (too few / constant autosomal bins)"""
+    return (case["in"]["method"].startswith("hmm") and isinstance(impl, dict)
+            and impl.get("__error__") == "ZeroDivisionError" and "NormalDistribution" in impl.get("tb", ""))
+
+
 def _cna(rows):
     from cnvlib.cnary import CopyNumArray as CNA
     return CNA.from_rows([tuple(r) for r in rows],
@@ -176,7 +182,8 @@ def to_line(case, impl):
         units_json.append([[b[0], b[1], b[2], b[3], frac(b[4]), frac(b[5]), frac(b[6]), bool(o)]
                            for b, (_lab, o) in zip(ub, u)])
     runs = _runs([list(s) for s in impl["segs"]], units_bins, impl["keeps"])
-    return {"op": "segment", "in": dict(base, units=units_json, runs=runs), "impl": impl["segs"]}
+    allbins = [[b[0], b[1], b[2], b[3], frac(b[4]), frac(b[5]), frac(b[6]), False] for b in bins]
+    return {"op": "segment", "in": dict(base, units=units_json, runs=runs, bins=allbins), "impl": impl["segs"]}
 
 
 def _close(a, b):
@@ -193,6 +200,13 @@ def judge(case, impl, resp):
     dis = []
     if resp["keep"] != impl["keeps"]:
         dis.append("survive mask: model filters != real filters")
+    if resp.get("arms") is not None and resp["arms"] != impl["arms"]:
+        # int(round(0.1 * n)) in float vs exact half-even rounding can differ only when n ends in 5
+        sizes = {}
+        for r in case["in"]["bins"]:
+            sizes[r[0]] = sizes.get(r[0], 0) + 1
+        if not any(n % 10 == 5 and n > 500 for n in sizes.values()):
+            dis.append(f"by_arm: model arms {resp['arms']} impl {impl['arms']}")
     out, segs = resp["out"], impl["segs"]
     check_log2 = case["in"]["method"] == "none" or case["in"]["method"].startswith("hmm")
     if len(out) != len(segs):
